@@ -3,7 +3,12 @@
 program over the events of coq/C08/Flow.v.  Fail-closed: any statement shape that could write `coef`,
 `baseline` or params['coef'] in a way not understood raises TranslateError.
 
-  coef = <expr>  /  in-place write to coef                      -> ECoef
+  coef = P @ <rhs> with P a pseudo-inverse of the (row-scaled) Vandermonde, i.e. a name only ever bound to the
+         last result of self._setup_polynomial(..., calc_pinv=True) or to np.linalg.pinv(s[:, None] * V), or
+  coef = np.linalg.lstsq(V * s[:, None], y * s, ...)[0]   (V = self._polynomial.vandermonde)  -> ECoef
+         (the least-squares problem is handed to an SVD-based solver on the tall N x (p+1) matrix: the situation
+         C08_pinv_optimal / C08_poly_weighted_optimal describe)
+  coef = <anything else>  /  in-place write to coef             -> ECoefOther   (rejected by the flow checker)
   baseline = self._polynomial.vandermonde @ coef                 -> EBase
   baseline = <anything else> / in-place write to baseline        -> EOther
   params['coef'] = _convert_coef(coef, self.x_domain)            -> EReport
@@ -59,9 +64,80 @@ def call_name(fn):
     return None
 
 
+VANDER = 'self._polynomial.vandermonde'
+
+
+def is_scaled_vander(node):
+    """V, s[:, None] * V or V * s[:, None] with s a name (or np.sqrt(name))."""
+    if src(node) == VANDER:
+        return True
+    if isinstance(node, ast.BinOp) and isinstance(node.op, ast.Mult):
+        for a, b in ((node.left, node.right), (node.right, node.left)):
+            if src(a) == VANDER and isinstance(b, ast.Subscript) and src(b.slice) in ('(slice(None, None, None), None)', ':, None', '(:, None)'):
+                return True
+            if src(a) == VANDER and isinstance(b, ast.Subscript) and src(b).endswith('[:, None]'):
+                return True
+    return False
+
+
+def is_pinv_source(value, target_is_last_of_tuple):
+    if isinstance(value, ast.Call) and src(value.func) == 'np.linalg.pinv' and len(value.args) == 1 and not value.keywords \
+            and not target_is_last_of_tuple:
+        return is_scaled_vander(value.args[0])
+    if isinstance(value, ast.Call) and src(value.func) == 'self._setup_polynomial' and target_is_last_of_tuple:
+        return any(kw.arg == 'calc_pinv' and isinstance(kw.value, ast.Constant) and kw.value.value is True for kw in value.keywords)
+    return False
+
+
+def pinv_names(fn):
+    """Names that are, at every binding in the function, a pseudo-inverse of the (row-scaled) Vandermonde."""
+    good, bad = set(), set()
+    for n in ast.walk(fn):
+        targets = []
+        if isinstance(n, ast.Assign):
+            for t in n.targets:
+                if isinstance(t, (ast.Tuple, ast.List)):
+                    for k, e in enumerate(t.elts):
+                        e2 = e.value if isinstance(e, ast.Starred) else e
+                        if isinstance(e2, ast.Name):
+                            targets.append((e2.id, k == len(t.elts) - 1 and not isinstance(e, ast.Starred), n.value))
+                elif isinstance(t, ast.Name):
+                    targets.append((t.id, None, n.value))
+        elif isinstance(n, (ast.AugAssign, ast.AnnAssign)) and isinstance(n.target, ast.Name):
+            bad.add(n.target.id)
+        elif isinstance(n, (ast.For, ast.comprehension)):
+            for t in ast.walk(n.target):
+                if isinstance(t, ast.Name):
+                    bad.add(t.id)
+        elif isinstance(n, ast.NamedExpr):
+            bad.add(n.target.id)
+        for name, last, value in targets:
+            ok = is_pinv_source(value, True) if last else (last is None and is_pinv_source(value, False))
+            (good if ok else bad).add(name)
+    for a in fn.args.args + fn.args.kwonlyargs:
+        bad.add(a.arg)
+    return good - bad
+
+
+def is_direct_solve(value, pnames):
+    if isinstance(value, ast.BinOp) and isinstance(value.op, ast.MatMult) and isinstance(value.left, ast.Name) \
+            and value.left.id in pnames:
+        return True
+    if isinstance(value, ast.Subscript) and src(value.slice) == '0' and isinstance(value.value, ast.Call) \
+            and src(value.value.func) == 'np.linalg.lstsq' and len(value.value.args) >= 2:
+        A, b = value.value.args[0], value.value.args[1]
+        if is_scaled_vander(A) and src(A) != VANDER and isinstance(b, ast.BinOp) and isinstance(b.op, ast.Mult):
+            scale = [x for x in (A.left, A.right) if src(x) != VANDER][0]
+            sname = src(scale)[:-len('[:, None]')]
+            return sname in (src(b.left), src(b.right))
+        return src(A) == VANDER
+    return False
+
+
 class Tr:
     def __init__(self, fn, where):
         self.fn, self.where = fn, where
+        self.pnames = pinv_names(fn)
 
     def refuse(self, node, why):
         raise TranslateError(f'{self.where}:{getattr(node, "lineno", "?")}: {why}: {src(node)[:120]}')
@@ -114,7 +190,8 @@ class Tr:
                 if b in TRACKED:
                     hit.add(b)
                     if b == 'coef':
-                        evs.append('ECoef')
+                        direct = isinstance(t, ast.Name) and isinstance(st, ast.Assign) and is_direct_solve(value, self.pnames)
+                        evs.append('ECoef' if direct else 'ECoefOther')
                     elif isinstance(t, ast.Name) and isinstance(st, ast.Assign) and is_vander_coef(value):
                         evs.append('EBase')
                     else:
@@ -322,3 +399,46 @@ def gen_transform_shape(repo):
 
 
 GENERATORS = {'GenPolyFlow': gen_polyflow, 'GenPolyTransform': gen_transform_shape}
+
+
+# ---------------------------------------------------------------------------------------------------
+# how the pseudo-inverse that the methods receive is produced (every entry path of the weighted solve)
+EXPECTED_SETUP_TAIL = [
+    'if weights is None:\n'
+    '    pseudo_inverse = self._polynomial.pseudo_inverse\n'
+    'else:\n'
+    '    pseudo_inverse = np.linalg.pinv(np.sqrt(weight_array)[:, None] * self._polynomial.vandermonde)',
+    'return (y, weight_array, pseudo_inverse)',
+]
+EXPECTED_PINV_PROPERTY = [
+    'if self.pinv_stale or self._pseudo_inverse is None:\n'
+    '    self._pseudo_inverse = np.linalg.pinv(self.vandermonde)\n'
+    '    self.pinv_stale = False',
+    'return self._pseudo_inverse',
+]
+
+
+def gen_solve_shape(repo):
+    found = []
+    for rel in ('pybaselines/_algorithm_setup.py', 'pybaselines/two_d/_algorithm_setup.py'):
+        tree, _ = _parse(rel, repo)
+        setups = [f for c in tree.body if isinstance(c, ast.ClassDef) for f in c.body
+                  if isinstance(f, ast.FunctionDef) and f.name == '_setup_polynomial']
+        props = [f for c in tree.body if isinstance(c, ast.ClassDef) and c.name.startswith('_PolyHelper') for f in c.body
+                 if isinstance(f, ast.FunctionDef) and f.name == 'pseudo_inverse']
+        if len(setups) != 1 or len(props) != 1:
+            raise TranslateError(f'{rel}: expected one _setup_polynomial and one _PolyHelper*.pseudo_inverse')
+        tail = [ast.unparse(st) for st in setups[0].body[-2:]]
+        if tail != EXPECTED_SETUP_TAIL:
+            raise TranslateError(f'{rel}:_setup_polynomial: the pseudo-inverse is no longer pinv(sqrt(w)[:, None] * V) / the cached pinv(V): {tail!r}'[:400])
+        body = [ast.unparse(st) for st in props[0].body if not (isinstance(st, ast.Expr) and isinstance(st.value, ast.Constant))]
+        if body != EXPECTED_PINV_PROPERTY:
+            raise TranslateError(f'{rel}:pseudo_inverse property is no longer np.linalg.pinv(self.vandermonde): {body!r}'[:400])
+        found.append(rel)
+    return ('(* generated by tools/gen_polyflow.py from the current source -- do not edit *)\n'
+            'From Coq Require Import List String.\nImport ListNotations.\nOpen Scope string_scope.\n'
+            '(* in these files _setup_polynomial hands out pinv(sqrt(w)[:, None] * V) (weights given) or the cached pinv(V) *)\n'
+            'Definition pinv_of_scaled_vandermonde : list string := [' + '; '.join(f'"{r}"' for r in found) + '].\n')
+
+
+GENERATORS['GenPolySolve'] = gen_solve_shape
